@@ -204,3 +204,82 @@ func (w *WaitGroup) Wait() {
 	}
 	vsched.PointWhen("wg.wait", func() bool { return w.n == 0 }, 0)
 }
+
+// Cond mirrors sync.Cond (waiters are woken in FIFO order, as the runtime's notify list does).
+type Cond struct {
+	L       Locker
+	real    *sync.Cond
+	waiters []*condTicket
+}
+
+type condTicket struct{ woken bool }
+
+func NewCond(l Locker) *Cond { return &Cond{L: l} }
+
+func (c *Cond) realCond() *sync.Cond {
+	if c.real == nil {
+		c.real = sync.NewCond(c.L)
+	}
+	return c.real
+}
+
+func (c *Cond) Wait() {
+	if !vsched.Active() {
+		if vsched.Aborted() {
+			vsched.Point("abort")
+		}
+		c.realCond().Wait()
+		return
+	}
+	t := &condTicket{}
+	c.waiters = append(c.waiters, t)
+	c.L.Unlock()
+	vsched.PointWhen("cond.wait", func() bool { return t.woken }, 0)
+	c.L.Lock()
+}
+
+func (c *Cond) Signal() {
+	if !vsched.Active() {
+		if vsched.Aborted() {
+			return
+		}
+		c.realCond().Signal()
+		return
+	}
+	vsched.Point("cond.signal")
+	if len(c.waiters) > 0 {
+		c.waiters[0].woken = true
+		c.waiters = c.waiters[1:]
+	}
+}
+
+func (c *Cond) Broadcast() {
+	if !vsched.Active() {
+		if vsched.Aborted() {
+			return
+		}
+		c.realCond().Broadcast()
+		return
+	}
+	vsched.Point("cond.broadcast")
+	for _, w := range c.waiters {
+		w.woken = true
+	}
+	c.waiters = nil
+}
+
+// Map mirrors sync.Map closely enough for code that only needs a concurrent map (every operation is a scheduling point).
+type Map struct{ m sync.Map }
+
+func (m *Map) Load(k any) (any, bool) { vsched.Point("map.load"); return m.m.Load(k) }
+func (m *Map) Store(k, v any)         { vsched.Point("map.store"); m.m.Store(k, v) }
+func (m *Map) Delete(k any)           { vsched.Point("map.delete"); m.m.Delete(k) }
+func (m *Map) LoadOrStore(k, v any) (any, bool) {
+	vsched.Point("map.loadorstore")
+	return m.m.LoadOrStore(k, v)
+}
+func (m *Map) LoadAndDelete(k any) (any, bool) {
+	vsched.Point("map.loadanddelete")
+	return m.m.LoadAndDelete(k)
+}
+func (m *Map) Range(f func(k, v any) bool) { vsched.Point("map.range"); m.m.Range(f) }
